@@ -4,6 +4,8 @@
 // group cache (sizes 1..10000, so hits and evictions both happen), B with maps inserted in another
 // order and a cache that never stores anything. Half of the cases also go through one real epoch change
 // (EpochStartPrepare/EpochStartAction with the same body on both), so that two epochs are known.
+// An epoch may be prepared twice on A (replaced epoch start block); B, which only saw the final block,
+// is the reference. At the end a new instance is restored from A's boot storage with LoadState.
 // For every call (randomness and rounds drawn from small pools so that keys repeat and collide in all
 // but one component): size == configured group size, pairwise distinct keys, subset of the shard's
 // eligible list of that epoch, group[0] == first key of GetConsensusValidatorsPublicKeys, A == B,
@@ -66,7 +68,7 @@ func eq(a, b []string) bool {
 func main() {
 	_ = logger.SetLogLevel("*:NONE")
 	r := vk.Start("C15")
-	r.Rule("coordinators with 1-3 shards + metachain, group sizes 1-7, eligible sizes from the group size to 3x the group size, waiting 0-4, plain or rater variant (chance table with minimum 1/2/5, entries below the minimum, and very skewed entries 200-2000), sha256 or blake2b, LRU cache size 1/3/50/10000; optional real epoch change; per case 24-40 calls with randomness from a pool of 3 values (1-40 bytes, may contain '_' and digits), rounds from a pool of 4, every shard, every known epoch; every call is non-trivial; distinct = distinct (rater, skewed, shard kind, group size, eligible size, epoch kind, cache state)")
+	r.Rule("coordinators with 1-3 shards + metachain, group sizes 1-7, eligible sizes from the group size to 3x the group size, waiting 0-4, plain or rater variant (chance table with minimum 1/2/5, entries below the minimum, and very skewed entries 200-2000), sha256 or blake2b, LRU cache size 1/3/50/10000; 0-3 real epoch changes, half of them prepared twice on A (a replaced epoch start block with other validator info and randomness, groups computed in between and asked again afterwards), the last one sometimes without EpochStartAction; a concurrent burst; finally a new instance over the same real boot storage unit restored with LoadState(saved key) and compared on 16-25 calls; per case 40-90 sequential calls with randomness from a pool of 3 values (1-40 bytes, may contain '_' and digits), rounds from a pool of 4, every shard, every known epoch; every call is non-trivial; distinct = distinct (rater, skewed, shard kind, group size, eligible size, epoch kind, cache state)")
 	r.Assume("randomness is non-empty (empty randomness is rejected by the coordinator)", "the eligible list of the start epoch is the harness's own copy of the constructor input; for the epoch created by the epoch change it is what GetAllEligibleValidatorsPublicKeys reports")
 	r.MinShapes(60)
 	n := r.N(1500, 36000)
@@ -80,7 +82,8 @@ func main() {
 			panic(err)
 		}
 		cache := &countingCache{inner: lru}
-		a, err := spec.Build(nil, cache)
+		storer := sg.NewBootStorer() // real storage unit: a restarted instance loads from it
+		a, err := spec.BuildWith(nil, cache, storer)
 		if err != nil {
 			r.Violation(c.Idx, "constructor-error", "coordinator A: "+err.Error(), map[string]interface{}{"spec": spec.Dump()})
 			return
@@ -121,12 +124,17 @@ func main() {
 		shards := spec.Shards()
 		var infosDump []string
 
-		call := func(phase string) bool {
-			rnd := pool[rng.Intn(len(pool))]
-			round := rounds[rng.Intn(len(rounds))]
-			shard := shards[rng.Intn(len(shards))]
-			epoch := epochs[rng.Intn(len(epochs))]
+		// calls answered by A between the first and the second EpochStartPrepare of an epoch: if one of
+		// them is later answered differently from the reference, the answer is a left-over of the first block
+		staleCandidates := map[string][]string{}
+		preparedTwice := map[uint32]bool{}
+		callKey := func(rnd []byte, round uint64, shard, epoch uint32) string {
+			return fmt.Sprintf("%x/%d/%d/%d", rnd, round, shard, epoch)
+		}
+		callWith := func(phase string, rnd []byte, round uint64, shard, epoch uint32) bool {
 			want := spec.Cons(shard)
+			answeredBefore, wasAsked := staleCandidates[callKey(rnd, round, shard, epoch)]
+			stale := false // set once A's answer is known: it repeats the answer given under the replaced block
 			el := eligible[epoch][shard]
 			hitsBefore := atomic.LoadInt64(&cache.hits)
 			detail := func(extra map[string]interface{}) map[string]interface{} {
@@ -144,6 +152,7 @@ func main() {
 				return false
 			}
 			kA := groupKeys(gA)
+			stale = wasAsked && eq(kA, answeredBefore)
 			warmFirst := atomic.LoadInt64(&cache.hits) > hitsBefore
 			if warmFirst {
 				r.Count("first_answer_served_from_cache", 1)
@@ -151,6 +160,9 @@ func main() {
 			epochKind := "start"
 			if epoch != spec.StartEpoch {
 				epochKind = "after-change"
+			}
+			if preparedTwice[epoch] {
+				epochKind = "prepared-twice"
 			}
 			sk := "shard"
 			if shard == sg.Meta {
@@ -176,6 +188,10 @@ func main() {
 					ok = false
 				}
 				seen[k] = true
+				if !inEl[k] && ok && stale {
+					r.Violation(c.Idx, "stale-group-after-epoch-prepared-again", fmt.Sprintf("validator %x is not eligible in shard %s epoch %d according to the last prepared block; the same call was answered after the first prepare", k, sg.ShardName(shard), epoch), detail(map[string]interface{}{"group": sg.HexList(kA), "eligible": sg.HexList(el)}))
+					ok = false
+				}
 				if !inEl[k] && ok {
 					r.Violation(c.Idx, "member-not-eligible", fmt.Sprintf("validator %x is not in the eligible list of shard %s epoch %d", k, sg.ShardName(shard), epoch), detail(map[string]interface{}{"group": sg.HexList(kA), "eligible": sg.HexList(el)}))
 					ok = false
@@ -208,6 +224,9 @@ func main() {
 				if warmFirst {
 					key = "cached-differs-from-fresh"
 				}
+				if stale && warmFirst {
+					key = "stale-group-after-epoch-prepared-again"
+				}
 				r.Violation(c.Idx, key, fmt.Sprintf("A (cache size %d, answer from cache: %v) and B (no cache) compute different groups", size, warmFirst), detail(map[string]interface{}{"groupA": sg.HexList(kA), "groupB": sg.HexList(kB)}))
 				ok = false
 			}
@@ -227,6 +246,9 @@ func main() {
 			}
 			return ok
 		}
+		call := func(phase string) bool {
+			return callWith(phase, pool[rng.Intn(len(pool))], rounds[rng.Intn(len(rounds))], shards[rng.Intn(len(shards))], epochs[rng.Intn(len(epochs))])
+		}
 
 		n1 := 12 + rng.Intn(8)
 		for i := 0; i < n1; i++ {
@@ -234,28 +256,91 @@ func main() {
 				return
 			}
 		}
-		if rng.Bool() {
-			prev, err := sg.ReadConfig(a, spec.StartEpoch)
+		// 0-3 epoch changes. A change may be "prepared twice": A first sees a block that is later replaced
+		// (rollback of the epoch start block) by a competing block with other validator info and another
+		// PrevRandSeed, computes groups for the new epoch in between, and only then sees the final block;
+		// B only ever sees the final block. The last change may stay without EpochStartAction.
+		curEpoch := spec.StartEpoch
+		nChanges := []int{0, 1, 1, 1, 2, 2, 3}[rng.Intn(7)]
+		type pending struct {
+			rnd   []byte
+			round uint64
+			shard uint32
+		}
+		for ch := 1; ch <= nChanges; ch++ {
+			prev, err := sg.ReadConfig(b, curEpoch)
 			if err != nil {
 				panic(err)
 			}
-			infos := sg.GenInfos(spec, prev, nil, rng)
-			infosDump = sg.DumpInfos(infos)
-			seed := rng.U64()
-			newEpoch := spec.StartEpoch + 1
-			prevRand := rng.Bytes(32)
-			for _, co := range []sg.Coord{a, b} {
-				hdr := sg.Header(newEpoch, prevRand)
-				co.EpochStartPrepare(hdr, sg.MakeBody(infos, vk.NewRand(seed)))
-				co.EpochStartAction(hdr)
+			newEpoch := curEpoch + 1
+			var between []pending
+			if rng.Chance(1, 2) {
+				infos1 := sg.GenInfos(spec, prev, nil, rng)
+				a.EpochStartPrepare(sg.Header(newEpoch, rng.Bytes(32)), sg.MakeBody(infos1, rng.Fork()))
+				if _, errCfg := sg.ReadConfig(a, newEpoch); errCfg == nil {
+					preparedTwice[newEpoch] = true
+					r.Count("epochs_prepared_twice", 1)
+					for i, nb := 0, 4+rng.Intn(8); i < nb; i++ {
+						q := pending{rnd: pool[rng.Intn(len(pool))], round: rounds[rng.Intn(len(rounds))], shard: shards[rng.Intn(len(shards))]}
+						gOld, errG := a.ComputeConsensusGroup(append([]byte(nil), q.rnd...), q.round, q.shard, newEpoch)
+						if errG != nil {
+							r.Violation(c.Idx, "error-on-valid-input", fmt.Sprintf("ComputeConsensusGroup for the prepared epoch %d: %v", newEpoch, errG), map[string]interface{}{"spec": spec.Dump(), "firstBlockInfos": sg.DumpInfos(infos1)})
+							return
+						}
+						staleCandidates[callKey(q.rnd, q.round, q.shard, newEpoch)] = groupKeys(gOld)
+						between = append(between, q)
+						r.Count("calls_between_the_two_prepares", 1)
+					}
+				}
 			}
-			cfg, err := sg.ReadConfig(a, newEpoch)
+			infos := sg.GenInfos(spec, prev, nil, rng)
+			infosDump = append(infosDump, fmt.Sprintf("--- epoch %d (final block) ---", newEpoch))
+			infosDump = append(infosDump, sg.DumpInfos(infos)...)
+			seed := rng.U64()
+			prevRand := rng.Bytes(32)
+			hdr := sg.Header(newEpoch, prevRand)
+			a.EpochStartPrepare(hdr, sg.MakeBody(infos, vk.NewRand(seed)))
+			b.EpochStartPrepare(sg.Header(newEpoch, prevRand), sg.MakeBody(infos, vk.NewRand(seed)))
+			cfg, err := sg.ReadConfig(b, newEpoch)
 			if err != nil {
 				r.Count("epoch_change_not_installed", 1)
-			} else {
-				r.Count("epoch_changes", 1)
-				eligible[newEpoch] = cfg.Eligible
-				epochs = append(epochs, newEpoch)
+				break
+			}
+			r.Count("epoch_changes", 1)
+			eligible[newEpoch] = cfg.Eligible
+			epochs = append(epochs, newEpoch)
+			// the prepared epoch can be asked for before EpochStartAction: first the very calls A already
+			// answered under the replaced block, then random ones
+			for _, q := range between {
+				r.Count("calls_repeated_after_the_second_prepare", 1)
+				if !callWith("after-second-prepare", q.rnd, q.round, q.shard, newEpoch) {
+					return
+				}
+			}
+			for i, nb := 0, 3+rng.Intn(6); i < nb; i++ {
+				if !call("prepared-not-yet-started") {
+					return
+				}
+			}
+			if ch == nChanges && rng.Chance(1, 4) {
+				r.Count("last_change_without_EpochStartAction", 1)
+				break
+			}
+			a.EpochStartAction(hdr)
+			b.EpochStartAction(sg.Header(newEpoch, prevRand))
+			curEpoch = newEpoch
+			// EpochStartAction drops old epochs
+			kept := epochs[:0]
+			for _, e := range epochs {
+				if _, errB := sg.ReadConfig(b, e); errB == nil {
+					kept = append(kept, e)
+				}
+			}
+			epochs = kept
+			for i, nb := 0, 3+rng.Intn(6); i < nb; i++ {
+				if !call("after-epoch-change") {
+					return
+				}
 			}
 		}
 		n2 := 12 + rng.Intn(20)
@@ -338,6 +423,57 @@ func main() {
 						r.Violation(c.Idx, "concurrent-differs-from-sequential", fmt.Sprintf("a group computed while %d goroutines used the coordinator differs from the sequentially computed group for the same input", workers), det)
 						return
 					}
+				}
+			}
+		}
+		// restart: a NEW instance over the same boot storer loads the state saved under A's key (what
+		// storageBootstrap does with the key recorded in the boot info) and must compute what A computes
+		{
+			key := append([]byte(nil), a.GetSavedStateKey()...)
+			rc, errR := spec.BuildWith(rng.Fork(), &mock.NodesCoordinatorCacheMock{}, storer)
+			if errR != nil {
+				r.Violation(c.Idx, "constructor-error", "restarted coordinator: "+errR.Error(), map[string]interface{}{"spec": spec.Dump()})
+				return
+			}
+			if errR = rc.LoadState(key); errR != nil {
+				r.Violation(c.Idx, "restore-failed", fmt.Sprintf("LoadState(%x) on a new instance over the same storer: %v", key, errR), map[string]interface{}{"spec": spec.Dump(), "epochChangeInfos": infosDump})
+				return
+			}
+			r.Count("restores", 1)
+			if spec.Rater {
+				r.Count("restores_with_rater", 1)
+			}
+			for i, nb := 0, 16+rng.Intn(10); i < nb; i++ {
+				rnd := pool[rng.Intn(len(pool))]
+				if rng.Bool() {
+					rnd = rng.Bytes(1 + rng.Intn(32))
+				}
+				round, shard, epoch := rounds[rng.Intn(len(rounds))], shards[rng.Intn(len(shards))], epochs[rng.Intn(len(epochs))]
+				det := map[string]interface{}{"spec": spec.Dump(), "savedStateKey": vk.Hex(key), "randomness": vk.Hex(rnd), "round": round, "shard": sg.ShardName(shard), "epoch": epoch, "epochChangeInfos": infosDump}
+				gA, errA := a.ComputeConsensusGroup(append([]byte(nil), rnd...), round, shard, epoch)
+				gR, errR := rc.ComputeConsensusGroup(append([]byte(nil), rnd...), round, shard, epoch)
+				r.Eval(1)
+				r.Count("calls_compared_with_restored_instance", 1)
+				if errA != nil {
+					r.Violation(c.Idx, "error-on-valid-input", "coordinator A: "+errA.Error(), det)
+					return
+				}
+				if errR != nil {
+					r.Violation(c.Idx, "restored-coordinator-error", fmt.Sprintf("the restored instance cannot compute a group for shard %s epoch %d known to the original: %v", sg.ShardName(shard), epoch, errR), det)
+					return
+				}
+				kA, kR := groupKeys(gA), groupKeys(gR)
+				if !eq(kA, kR) {
+					// is it the original that is off (answer from its cache)? ask the cache-less reference
+					if gB, errB := b.ComputeConsensusGroup(append([]byte(nil), rnd...), round, shard, epoch); errB == nil && !eq(kA, groupKeys(gB)) && eq(kR, groupKeys(gB)) {
+						det["groupA"], det["groupB"] = sg.HexList(kA), sg.HexList(kR)
+						r.Violation(c.Idx, "cached-differs-from-fresh", "A answers differently from both the cache-less coordinator and the restored instance", det)
+						return
+					}
+					det["groupOriginal"] = sg.HexList(kA)
+					det["groupRestored"] = sg.HexList(kR)
+					r.Violation(c.Idx, "restored-coordinator-disagrees", fmt.Sprintf("after LoadState a new instance computes another group (leader %x vs %x) for shard %s epoch %d", first(kR), first(kA), sg.ShardName(shard), epoch), det)
+					return
 				}
 			}
 		}
